@@ -189,6 +189,18 @@ const char *json_string_value(const json_t *json)
 	return n->sval;
 }
 
+int json_integer_set(json_t *integer, json_int_t value)
+{
+	VJ_LIVE(integer);
+	vj_t *n = (vj_t *)integer;
+	if (n == NULL || n->type != JSON_INTEGER)
+		return -1;
+	g_json_mutations++;
+	g_json_version++;
+	n->ival = value;		/* in place: every holder of this node sees the new value */
+	return 0;
+}
+
 json_int_t json_integer_value(const json_t *json)
 {
 	VJ_LIVE(json);
